@@ -9,6 +9,7 @@ package mc
 
 import (
 	"fmt"
+	"net"
 	"strings"
 	"testing"
 	"time"
@@ -255,6 +256,94 @@ func runC20Seq(t *testing.T, ops []string) (sig, msg string) {
 	return
 }
 
+// c20Stall: Shutdown while a probe's stream fallback is open towards a half-dead member (silent on
+// packets, accepts the stream and never answers). All background activity - the probe, its stream -
+// must be over within one awareness-scaled probe interval of Shutdown returning, however long the
+// configured stream timeout is.
+type c20Stall struct {
+	TCPTimeoutS int `json:"tcp_timeout_s"`
+	Score       int `json:"health_score"`
+	ShutdownMs  int `json:"shutdown_ms_after_probe_start"`
+	Indirect    int `json:"indirect_checks"`
+}
+
+func runC20Stall(t *testing.T, c c20Stall) (sig, msg string) {
+	res := inBubble(t, func(b *bubble) {
+		installDetRand()
+		nd, err := newNode("o", ip4(1), func(cf *ml.Config) {
+			cf.ProbeInterval = time.Second
+			cf.ProbeTimeout = 300 * time.Millisecond
+			cf.TCPTimeout = time.Duration(c.TCPTimeoutS) * time.Second
+			cf.IndirectChecks = c.Indirect
+		})
+		must(err)
+		o := b.track(nd)
+		advance(time.Microsecond)
+		o.M.VAliveNode(&ml.VAlive{Incarnation: 1, Node: "ghost", Addr: ip4(60), Port: 7946, Vsn: defaultVsn}, nil, false)
+		o.M.VAliveNode(&ml.VAlive{Incarnation: 1, Node: "helper", Addr: ip4(61), Port: 7946, Vsn: defaultVsn}, nil, false)
+		o.M.VApplyAwarenessDelta(c.Score)
+		advance(time.Microsecond)
+		var conns []*simConn
+		o.T.OnDial = func(a ml.Address, d time.Duration) (net.Conn, error) {
+			c1, c2 := simPipe(o.Addr, simAddr(a.Addr))
+			b.conns = append(b.conns, c1, c2)
+			conns = append(conns, c1)
+			return c1, nil // accepted; the other end never reads and never writes
+		}
+		interval := time.Duration(c.Score+1) * time.Second
+		probeDone := make(chan struct{})
+		go func() { o.M.VProbeNodeByName("ghost"); close(probeDone) }()
+		settle()
+		time.Sleep(time.Duration(c.ShutdownMs) * time.Millisecond)
+		settle()
+		if _, bl := call(0, func() { _ = o.M.Shutdown() }); bl {
+			sig, msg = "shutdown-blocked", fmt.Sprintf("%+v", c)
+			return
+		}
+		sd := time.Now()
+		time.Sleep(interval + time.Millisecond)
+		settle()
+		// what the probe in flight still hands to the (closed) transport during this interval reaches
+		// no network; from here on there must be no activity at all
+		sent := o.T.NumSent()
+		select {
+		case <-probeDone:
+		default:
+			sig, msg = "probe-outlives-shutdown", fmt.Sprintf("%+v: the probe started before Shutdown is still running %v after Shutdown returned (one scaled probe interval is %v)", c, time.Since(sd), interval)
+			return
+		}
+		for i, cn := range conns {
+			cn.mu.Lock()
+			closed := cn.closed
+			cn.mu.Unlock()
+			if !closed {
+				sig, msg = "stream-outlives-shutdown", fmt.Sprintf("%+v: stream %d opened by the probe is still open %v after Shutdown returned (one scaled probe interval is %v)", c, i, time.Since(sd), interval)
+				return
+			}
+		}
+		if len(conns) == 0 && c.ShutdownMs > 300 {
+			sig, msg = "scenario-broken:no-fallback-stream", fmt.Sprintf("%+v", c)
+			return
+		}
+		time.Sleep(40 * time.Second)
+		settle()
+		if n := o.T.NumSent(); n != sent {
+			sig, msg = "traffic-after-shutdown", fmt.Sprintf("%+v: %d packets handed to the transport later than one scaled probe interval after Shutdown", c, n-sent)
+		}
+	})
+	if res.Panic != nil && sig == "" {
+		sig, msg = "panic", fmt.Sprintf("%+v: %v", c, res.Panic)
+	}
+	if res.Leak && sig == "" {
+		sig, msg = "goroutine-leak", fmt.Sprintf("%+v", c)
+	}
+	return
+}
+
+type c20Replay2 struct {
+	Stall *c20Stall `json:"stall"`
+}
+
 func TestC20(t *testing.T) {
 	rep := newReport()
 	defer rep.Write(t)
@@ -271,6 +360,17 @@ func TestC20(t *testing.T) {
 		}
 		rep.States, rep.Transitions = 1, len(trp.Choices)+1
 		rep.Samples = append(rep.Samples, trp)
+		return
+	}
+	var rp2 c20Replay2
+	if loadReplay(&rp2) && rp2.Stall != nil {
+		sig, msg := runC20Stall(t, *rp2.Stall)
+		t.Logf("replay: %q %s", sig, msg)
+		if sig != "" {
+			rep.Violate(sig, msg, rp2)
+		}
+		rep.States, rep.Transitions = 1, 1
+		rep.Samples = append(rep.Samples, rp2)
 		return
 	}
 	var rp c20Replay
@@ -343,6 +443,30 @@ func TestC20(t *testing.T) {
 		dfs(pf, []string{"tick"})
 	}
 	depth = saved
+	// ---- Shutdown while a probe's fallback stream is open towards a half-dead member
+	for _, tt := range []int{2, 10, 30} {
+		for _, sc := range []int{0, 2} {
+			for _, ms := range []int{100, 400, 700, 950} {
+				for _, ind := range []int{0, 1} {
+					idx++
+					if !mine(idx) {
+						continue
+					}
+					c := c20Stall{TCPTimeoutS: tt, Score: sc, ShutdownMs: ms, Indirect: ind}
+					journal("C20 stall %+v", c)
+					sig, msg := runC20Stall(t, c)
+					seqs++
+					rep.Transitions++
+					if sig != "" {
+						rep.Violate("stall:"+sig, msg, c20Replay2{&c})
+						rep.Outcome("violation:" + sig)
+					} else {
+						rep.Outcome("stall-ok")
+					}
+				}
+			}
+		}
+	}
 	// ---- Engine T part
 	tb := 2
 	if thorough() {
